@@ -124,8 +124,10 @@ func checkC15(c C15Case) *Violation {
 			if err != nil || back != d {
 				return vio("print-parse", "%s prints as %q which parses to %v (err %v)", iv, d.String(), back, err)
 			}
-			if d.String() != iv.Notation() {
-				return vio("notation", "%s prints as %q, documented notation is %q", iv, d.String(), iv.Notation())
+			// the print must also mean the interval under the documented reading (b = minor, or diminished
+			// where no minor exists; bb = diminished ...); which of two equivalent spellings is printed is free
+			if got, ok := theory.ReadNotation(d.String()); !ok || got != iv {
+				return vio("notation", "%s prints as %q, which the documented notation reads as %v", iv, d.String(), got)
 			}
 		case "notation":
 			// canonical prefix form and the suffix form of degree text
